@@ -206,8 +206,8 @@ class GenericNonMultiplicativeRegistry(
                 return all_units.add(u, e)
 
         if not slct_unit.is_multiplicative:  # is offset unit
-            # Extract reference unit
-            return slct_unit.reference
+            # Add the reference unit to the remaining (multiplicative) units
+            return all_units * slct_unit.reference
 
         # Otherwise, return the units unmodified
         return all_units
